@@ -154,6 +154,7 @@ func GetRequestInfo(request any) string {
 		_ = json.Unmarshal(buffer, create)
 		create.MilvusConnectParam.Password = ""
 		create.MilvusConnectParam.Token = ""
+		create.KafkaConnectParam.SASL.Password = ""
 		r = create
 	}
 	requestBytes, _ := json.Marshal(r)
